@@ -130,8 +130,14 @@ def chunks(tier, props, seed=0):
         step = (4 if name == "zoo.c" else 2) if tier == "quick" else 1
         for b in range(0, nb - 1, step):
             first.append(dict(prog=name, b=b, op="structural"))
+        text = base_text(name)
+        offs = boundaries(name)
         for b in range(0, nb, step):
             inserts.append(dict(prog=name, b=b, op="insert", lens=list(lens), sp=[""] if tier == "quick" else ["", " "]))
+        # the same insertion as a fragment on a line of its own, at EVERY statement (line) boundary
+        for b in range(nb):
+            if offs[b] < len(text) and (offs[b] == 0 or text[offs[b] - 1] == "\n"):
+                inserts.append(dict(prog=name, b=b, op="insert", lens=list(lens[:3]), sp=["\n"]))
     random.Random(seed).shuffle(inserts)
     return first + inserts
 
